@@ -15,12 +15,17 @@ CG_TEXTS = [
     # shared nodes at a coarse level
     ('{[#A][#B]}', '{#A=[#P][#Q][!@l],#B=[!@l][#Q][#R]}'),
     ('{[#A][#B][#C]}', '{#A=[#P][!@l],#B=[!@l][#P][#Q][!@l],#C=[!@l][#Q][#R]}'),
+    ('{[#A]|12}', '{#A=[>@l][#P][#Q][<@l]}'),              # more than ten coarse nodes
 ]
 AA_TEXTS = [
     ('{[#A][#B]}', '{#A=CC[$@l]=[>@l],#B=[$@l][<@l]=CC}'),
     ('{[#A][#B]}', '{#A=OC[!@l]C,#B=[!@l]CN}'),
     ('{[#A][#B][#C]}', '{#A=CC[!@l],#B=[!@l]CCC[$@l][>@l],#C=[$@l][<@l]CO}'),
     ('{[#A][#B]}', '{#A=N#C[!@l],#B=[!@l]CC(F)(F)F}'),      # no hydrogens at all
+    # two molecules in one string (zero-order bond), a virtual node held by zero-order bonds, eleven coarse nodes
+    ('{[#A][#B].[#A][#B]}', '{#A=[>@l]CC[<@l],#B=[>@l]CO[<@l]}'),
+    ('{[#A][#B].[#V]}', '{#A=[>@l]CC[<@l],#B=[>@l]CO[<@l]}'),
+    ('{[#A]|11[#B]}', '{#A=[>@l]C[<@l],#B=[>@l]O[<@l]}'),
 ]
 
 
